@@ -38,6 +38,7 @@ def dispatch (line : String) : String :=
     | "stmt" => Drivers.ParseStmt.handleStmt args
     | "pexpr" => Drivers.ParseExpr.handle args
     | "e2e" => Drivers.Pipeline.handle args
+    | "e2ef" => Drivers.Pipeline.handleFollow args
     | "jsontext" => Drivers.JsonText.handle args
     | _ => "unknown-kind"
   | _ => "bad-line"
